@@ -173,6 +173,42 @@ def judge_key(ctx, rng, curve, secret, light=False):
                 ctx.violation('C07|CHECK_SIGNATURE-crashes-instead-of-False|%s|different-key' % cn, repr(cs[1])[:300], case)
             elif cs[1] is not False:
                 ctx.violation('C07|CHECK_SIGNATURE-accepts-under-different-key|' + cn, sig, case)
+    # altered public key (single bit / single byte): never accepted; where the altered bytes are still a point of the curve the
+    # verdict is a plain rejection (False), where they are not, refusing the key itself is as good
+    from pytezos.crypto.key import Key as K_
+    m0 = b'altered key'
+    try:
+        sig0 = key.sign(m0)
+    except Exception:
+        sig0 = None
+    kprefix = {b'ed': 'edpk', b'sp': 'sppk', b'p2': 'p2pk', b'BL': 'BLpk'}[curve]
+    positions = sorted({0, 1, len(pub) - 1, rng.randrange(len(pub)), rng.randrange(len(pub))}) if not light else [0, len(pub) - 1]
+    for pos in positions if sig0 else []:
+        for how in ('bit', 'byte'):
+            b = bytearray(pub)
+            b[pos] = b[pos] ^ (1 << rng.randrange(8)) if how == 'bit' else (b[pos] + rng.randrange(1, 256)) % 256
+            apub = bytes(b)
+            valid = E.valid_point(curve, apub)
+            kcase = dict(base, message=m0.hex(), message_is_bytes=True, altered_public_key=apub.hex(), alteration='altered-key:%s@%d' % (how, pos))
+            ctx.count('alterations')
+            ctx.count('alt_altered-key')
+            ctx.count('altered_keys_%s' % {True: 'on_the_curve', False: 'not_on_the_curve', None: 'validity_unknown'}[valid])
+            ctx.case((cn, secret, 'altered-key', apub), nontrivial=True)
+            ab58 = B.encode(apub, kprefix)
+            try:
+                akey = K_.from_encoded_key(ab58)
+            except Exception:
+                ctx.count('altered_keys_refused_at_import')
+                akey = None
+            if akey is not None:
+                st, r = pt_verify(akey, sig0, m0)
+                if st == 'accept':
+                    ctx.violation('C07|verify-accepts-under-altered-key|' + cn, 'key=%s sig=%s' % (ab58, sig0), kcase)
+            cs = check_signature(ctx, ab58, sig0, m0)
+            if cs == ('ok', True):
+                ctx.violation('C07|CHECK_SIGNATURE-accepts-under-altered-key|' + cn, 'key=%s' % ab58, kcase)
+            elif cs[0] == 'error' and valid:
+                ctx.violation('C07|CHECK_SIGNATURE-crashes-instead-of-False|%s|altered-key-still-on-the-curve' % cn, repr(cs[1])[:300], kcase)
     if len(ctx.samples) < 4:
         ctx.samples.append({'curve': cn, 'public_key': key.public_key(), 'messages': len(msgs)})
 
